@@ -61,3 +61,19 @@ def run(ctx):
         ctx.extra["trace_events_validated"] = v["events"]
     else:
         ctx.fail("trace-rejected:Trace_Faults", {"kind": "trace", "trace": trace, "info": v["info"], "tlc_output": v["out"]})
+    # the xls drawing group (cargo feature "picture"; tla/media/Pictures.tla, X06): every malformed picture store of
+    # MC_Pictures built into a workbook, and random stores damaged at random -- an error or a reading, never a panic
+    # (repair /repo fecc773; known_findings.json "fixed")
+    ctx.rules.append("xls drawing group (feature picture): the malformed stores of MC_Pictures_hostile.cfg (instance, blip length, FBSE "
+                     "length, FBSE name length, type range, truncation x record cuts) and randomly damaged OfficeArt streams: no panic")
+    os.environ.pop("KNOWN", None)
+    r = ctx.tlc("media", "MC_Pictures", "MC_Pictures_hostile.cfg", workers=4, timeout=900, xmx="4g")
+    if "REPLAY" in r["tags"]:
+        ctx.replay("pictures", r["tags"]["REPLAY"], extra=["--only_panics", "1"])
+    ptrace = ctx.work + "/pictures_hostile_trace.ndjson"
+    ctx.cvh(["drive", "pictures", "--out", ptrace, "--n", ctx.pick(150, 3000)])
+    v = ctx.validate_trace("media", "Trace_Pictures", "Trace_Pictures.cfg", ptrace, timeout=ctx.pick(600, 3000), extra_env={"ONLY": "hostile"})
+    if v["accepted"]:
+        ctx.traces += 1
+    else:
+        ctx.fail("trace-rejected:Trace_Pictures", {"kind": "trace", "trace": ptrace, "info": v["info"], "tlc_output": v["out"]})
